@@ -460,38 +460,63 @@ def data_fields():
 
 
 def run(ctx):
+    tmp = []
+    try:
+        _run(ctx, tmp)
+    finally:
+        for p in tmp:
+            if os.path.exists(p):
+                os.remove(p)
+
+
+def _run(ctx, tmp):
     ctx.rule = ("models: seeded random kinematic trees built through mjSpec (free/ball/slide/hinge joints, mocap bodies, "
                 "actuators with none/integrator/filter/filterexact dynamics and history buffers, joint sensors with history, "
                 "connect/weld equalities, userdata, keyframes) plus a minimal and a joint-less model; signatures: 0, all, every "
                 "single bit, every pair, every all-but-one, the named unions, seeded random (thorough: all 2^mjNSTATE on three "
                 "models); a case is distinct by (model, op line); non-trivial = op on a signature with at least one non-empty component")
     info = run_translator(ctx)
-    if info:
-        # Other checks may run translate/regen_all.py (which runs this translator on *their* VERIF_REPO)
-        # concurrently: make sure what lake compiles is the table of *this* tree.
-        want = open(GEN_LEAN).read()
-        for attempt in range(3):
-            ctx.lake(["build", "MjProof.Props.C26Gen", "drv_c26"])
-            if os.path.exists(GEN_LEAN) and open(GEN_LEAN).read() == want:
-                break
-            with open(GEN_LEAN, "w") as f:
-                f.write(want)
-        else:
-            raise common.Infra("lean/MjProof/Gen/StateTable.lean keeps being modified concurrently")
     ctx.checker_cmd = ("cd /verif && python3 translate/c26_tables.py && cd lean && lake build MjProof.Props.C26 "
                        "MjProof.Props.C26Gen && lake env lean Audit/C26.lean")
     ctx.lean_props(THEOREMS)
+    drv = None
     if info:
-        ctx.lean_props(THEOREMS_GEN, module="MjProof.Props.C26Gen")
+        # Other checks may run translate/regen_all.py (which runs this translator on *their* VERIF_REPO)
+        # concurrently: make sure that what lake compiles and audits is the table of *this* tree.
+        want = open(GEN_LEAN).read()
+
+        def table_is_ours():
+            return os.path.exists(GEN_LEAN) and open(GEN_LEAN).read() == want
+        for attempt in range(4):
+            if not table_is_ours():
+                with open(GEN_LEAN, "w") as f:
+                    f.write(want)
+            n0 = len(ctx.obligations)
+            ctx.lean_props(THEOREMS_GEN, module="MjProof.Props.C26Gen")
+            d = ctx.driver("drv_c26")
+            if d:
+                # private copy: a later rebuild by someone else must not change the model we run
+                import shutil
+                os.makedirs(os.path.join(common.CACHE, "c26"), exist_ok=True)
+                drv = os.path.join(common.CACHE, "c26", "drv_c26.%d" % os.getpid())
+                shutil.copy2(d, drv)
+                tmp.append(drv)
+            if drv:
+                r = common.sh([drv], inp="tableid\n")
+                if r.stdout.strip() != info["table_id"]:
+                    drv = None   # compiled from somebody else's table
+            if table_is_ours() and (drv or not d):
+                break
+            del ctx.obligations[n0:]
+            drv = None
+        else:
+            raise common.Infra("lean/MjProof/Gen/StateTable.lean keeps being modified concurrently")
     else:
         for t in THEOREMS_GEN:
             ctx.oblige("theorem " + t, "theorem", False, "no generated table: the translator refused the source shape")
     # one audit file listing everything (lean_props rewrites it per call)
     with open(os.path.join(common.LEAN, "Audit", "C26.lean"), "w") as f:
         f.write("import MjProof.Props.C26\nimport MjProof.Props.C26Gen\n" + "".join("#print axioms %s\n" % t for t in THEOREMS + THEOREMS_GEN))
-    drv = ctx.driver("drv_c26") if info else None
-    if info and not drv:
-        pass
     impl = ctx.harness("harness/c/c26_state.c", "c26_state")
     if not impl:
         return
